@@ -108,7 +108,14 @@ fn struct_source(s: &StructDef) -> String {
     let _ = writeln!(o, "#[derive(Default, Debug, Clone, PartialEq)] #[push_state({flags})] pub struct {} {{", s.name);
     let _ = writeln!(o, "    #[stack(exec)] pub code: Stack<u16>,");
     for (k, st) in s.stacks.iter().enumerate() {
-        let attr = if st.renamed { format!("#[stack(builder_name = {})]", st.method) } else { "#[stack]".to_string() };
+        // every third stack also carries the documentation-only flag `ignore_doctests` (it must change nothing but the generated doc tests)
+        let flagged = (s.name.len() + 2 * k) % 3 == 0;
+        let attr = match (st.renamed, flagged) {
+            (true, true) => format!("#[stack(builder_name = {}, ignore_doctests)]", st.method),
+            (true, false) => format!("#[stack(builder_name = {})]", st.method),
+            (false, true) => "#[stack(ignore_doctests)]".to_string(),
+            (false, false) => "#[stack]".to_string(),
+        };
         // the stack type is spelled the way users spell it: imported, or with its (absolute) path
         let spelled = ["Stack", "push::push_vm::stack::Stack", "Stack", "::push::push_vm::stack::Stack"][(s.name.len() + k) % 4];
         let _ = writeln!(o, "    {attr} pub {}: {spelled}<{}>,", st.field, TYPES[st.ty].rust);
@@ -796,7 +803,12 @@ pub fn run(ctx: &mut Ctx) {
     }
     let _ = writeln!(src, "fn main() {{");
     let _ = writeln!(src, "    let tests: Vec<fn() -> Result<(), String>> = vec![{}];", (0..tests.len()).map(|i| format!("t{i}")).collect::<Vec<_>>().join(", "));
-    let _ = writeln!(src, "    for (i, t) in tests.iter().enumerate() {{ match std::panic::catch_unwind(|| t()) {{ Ok(Ok(())) => {{}}, Ok(Err(e)) => println!(\"FAIL\\t{{i}}\\t{{}}\", e.replace('\\n', \" \")), Err(_) => println!(\"FAIL\\t{{i}}\\tpanicked\") }} }}");
+    // chains that load an astronomically long lazy list run last: should the tree under test ever take such a
+    // list instead of rejecting it, the process dies there - after everything else has been judged and printed
+    let mut run_order: Vec<usize> = (0..tests.len()).collect();
+    run_order.sort_by_key(|i| tests[*i].0.contains("usize).map(|_|"));
+    let _ = writeln!(src, "    let order: Vec<usize> = vec![{}];", run_order.iter().map(ToString::to_string).collect::<Vec<_>>().join(", "));
+    let _ = writeln!(src, "    for i in order {{ let t = tests[i]; match std::panic::catch_unwind(|| t()) {{ Ok(Ok(())) => {{}}, Ok(Err(e)) => println!(\"FAIL\\t{{i}}\\t{{}}\", e.replace('\\n', \" \")), Err(_) => println!(\"FAIL\\t{{i}}\\tpanicked\") }} }}");
     let _ = writeln!(src, "    println!(\"DONE\\t{{}}\", tests.len());\n}}");
     let dir_a = format!("{}/gen/c19run", verif_dir());
     if let Err(e) = write_crate(&dir_a, true, &src) {
@@ -832,10 +844,12 @@ pub fn run(ctx: &mut Ctx) {
         return;
     };
     let text = String::from_utf8_lossy(&out.stdout);
-    if !text.lines().any(|l| l.starts_with("DONE")) {
+    let finished = text.lines().any(|l| l.starts_with("DONE"));
+    if !finished && !text.lines().any(|l| l.starts_with("FAIL")) {
         ctx.inconclusive.push("the generated program did not finish".into());
         return;
     }
+    // (a program that died after reporting failures: the failures it printed before are judged below)
     ctx.count("legal_chains", tests.len() as u64);
     for (chain, nt) in &tests {
         if *nt {
